@@ -402,6 +402,13 @@ def rvalue(env, rv):
             return UNKNOWN
         if rv["op"] == "Not":
             return (not v) if isinstance(v, bool) else UNKNOWN
+        if rv["op"] == "PtrMetadata":
+            # the length of a slice / str behind a fat reference (`match xs { [] => .., [x] => .. }`, `xs.len()` inlined)
+            if isinstance(v, list) and ("[" in str(rv.get("oty", "")) or rv.get("oty") is None):
+                return len(v)
+            if isinstance(v, str) and "str" in str(rv.get("oty", "")):
+                return len(v.encode("utf-8"))
+            return UNKNOWN
         if rv["op"] == "Neg":
             if isinstance(v, Sym):
                 return Sym("Neg", v)
@@ -489,7 +496,9 @@ def _run_fragment(f, b, env, stops, oracle, max_blocks, on_block, stuck_ok, max_
             v = to_int(v)
             nxt = t["otherwise"]
             for val, bb in t["targets"]:
-                if val == v or (val >= 2 ** 63 and isinstance(v, int) and v < 0 and (val - 2 ** 128 == v or val - 2 ** 64 == v or val - 2 ** 32 == v)):
+                if val == v or (val >= 2 ** 63 and isinstance(v, int) and v < 0 and (val - 2 ** 128 == v or val - 2 ** 64 == v or val - 2 ** 32 == v)) or \
+                        (isinstance(v, int) and v < 0 and t.get("dty") in ("i8", "i16", "i32", "i64", "isize", "i128") and
+                         val == v + 2 ** {"i8": 8, "i16": 16, "i32": 32, "i64": 64, "isize": 64, "i128": 128}[t["dty"]]):
                     nxt = bb
                     break
             b = nxt
